@@ -1,5 +1,6 @@
 """C05 -- stopping and resuming at any batch boundary does not change the result."""
 from ..persist import rule_P1_P2, rule_P3, rule_P4_sampler, rule_P4_bound, rule_P5
+from ..effects import rule_F3, rule_F4
 
 LEVEL_TEXT = ('Static persistence-completeness analysis: effect sets of the code that runs '
               'between two full checkpoint writes are compared with the key tables extracted '
@@ -24,6 +25,8 @@ def run(ctx):
                                  'n_networks', 'n_batch', 'vectorized', 'pass_dict',
                                  'neural_network_{}'})
     rule_P5(ctx, 'Sampler', init, 'self')
+    rule_F3(ctx)
+    rule_F4(ctx)
     ctx.floor('P4', 25, 'incremental-update obligations')
     ctx.floor('P6', 6, 'state-change sites in run()')
     ctx.floor('P1', 30, 'key obligations')
